@@ -604,6 +604,19 @@ impl Monitors {
         // ---- C14: max-fails
         self.check_max_fails(&journal_this_step, &prev_jobs, &jobs, prev_core.as_ref(), &srv_cancel_sent, step, out);
 
+        if std::env::var("HQV_DUMP_STEP").ok().and_then(|s| s.parse::<u32>().ok()) == Some(step) {
+            eprintln!("--- step {step}: need_scheduling={} in_flight={} open_execs={:?}", sim.inc.server.need_scheduling(), sim.messages_in_flight(), sim.open_execs());
+            for t in &core.tasks {
+                eprintln!("task {:?} {:?} prio {:?} rq {}", conv::tid(t.id), t.state, t.priority, t.resource_rq_id);
+            }
+            for w in &core.workers {
+                eprintln!("worker {} group {} res {:?} {:?} blocked {:?} stopping {}", w.id, w.group, w.resources, w.assignment, w.blocked_requests, w.stopping);
+            }
+            for q in &core.queues {
+                eprintln!("queue rq {} ready {:?} prefill {:?}", q.resource_rq_id, q.ready, q.prefill);
+            }
+            eprintln!("redirects {:?}", core.redirects);
+        }
         // ---- C02 / S3: at a moment of rest (nothing in flight, nothing executing, no scheduling
         // asked for) no ready task may be waiting while a connected worker that could run it is
         // completely idle. An idle worker fits every request its total resources satisfy, so a
